@@ -337,10 +337,15 @@ fn seqs(nmax: usize) -> Vec<Vec<i64>> {
     out
 }
 
-/// (n_max, k) for the bounded-exhaustive part, by family shape, flavour and tier.
-fn bounds(fam: &Fam, sticky: bool, tier: Tier) -> (usize, u8) {
-    let thorough = tier == Tier::Thorough;
-    match (fam.nd, sticky) {
+/// Families whose answer tree explodes (compositions over several downstreams, the 4 queue variants of resolve_futures):
+/// they keep the quick bounds in the thorough tier (the number of distinct cases that can be held in
+/// memory for the distinct-case count is the limit, not time).
+const HEAVY: &[&str] = &["resolve_futures", "c:map>fanout>(filter,flat_map)", "c:flatten>fanout>(id,persist)", "c:resolve_futures>flat_map", "c:flat_map>unzip", "c:filter_map_async>fanout", "c:fanout>(fanout,id)"];
+
+/// (n_max, k, k_inner) for the bounded-exhaustive part, by family shape, flavour and tier.
+fn bounds(fam: &Fam, sticky: bool, tier: Tier) -> (usize, u8, u8) {
+    let thorough = tier == Tier::Thorough && !HEAVY.contains(&fam.name);
+    let (n, k) = match (fam.nd, sticky) {
         (0, _) => (4, 0),
         (1, _) => (4, if thorough { 3 } else { 2 }),
         (2, true) => (4, if thorough { 3 } else { 2 }),
@@ -365,7 +370,10 @@ fn bounds(fam: &Fam, sticky: bool, tier: Tier) -> (usize, u8) {
                 (3, 1)
             }
         }
-    }
+    };
+    // heavy families: length 3 in the quick tier, length 4 (with the quick Pending budget) in the thorough tier
+    let n = if tier == Tier::Quick && HEAVY.contains(&fam.name) { n.min(3) } else { n };
+    (n, k, k.min(2))
 }
 
 fn parse_case(case: &Value) -> Option<(usize, In, [DScr; MAXD], Bits)> {
@@ -418,7 +426,11 @@ fn main() {
 
     // (1) bounded-exhaustive: every item sequence x every answer pattern within the Pending budget
     let mut case_index = 0usize;
-    let mut leaves_by_fam: Vec<u64> = vec![0; nf];
+    let mut leaves_by_fam: Vec<[u64; 2]> = vec![[0; 2]; nf];
+    // developer options: --bounds n,k,k_inner (override the table) and --only <substring of family name>
+    let opt = |name: &str| args.rest.iter().position(|a| a == name).and_then(|i| args.rest.get(i + 1)).cloned();
+    let forced: Option<Vec<usize>> = opt("--bounds").map(|s| s.split(',').map(|x| x.parse().expect("--bounds n,k,k_inner")).collect());
+    let only = opt("--only");
     if miri {
         let inputs: Vec<Vec<i64>> = vec![vec![], vec![2], vec![1, 2], vec![2, 0, 2]];
         for (fi, fam) in FAMS.iter().enumerate() {
@@ -431,7 +443,7 @@ fn main() {
                     let prev = if (fam.prev)(variant) && !items.is_empty() { vec![1, 2] } else { vec![] };
                     let inp = In { variant, prev, items: items.clone() };
                     let sticky = case_index % 2 == 0;
-                    leaves_by_fam[fi] += explore(&mut rep, &mut t, fi, &inp, sticky, 1, 1, 6);
+                    leaves_by_fam[fi][sticky as usize] += explore(&mut rep, &mut t, fi, &inp, sticky, 1, 1, 6);
                 }
             }
         }
@@ -441,14 +453,20 @@ fn main() {
                 if fam.nd == 0 && !sticky {
                     continue;
                 }
-                let (nmax, k) = bounds(fam, sticky, args.tier);
+                if only.as_ref().is_some_and(|o| !fam.name.contains(o.as_str())) {
+                    continue;
+                }
+                let (nmax, k, k_inner) = match &forced {
+                    Some(f) => (f[0], f[1] as u8, f[2] as u8),
+                    None => bounds(fam, sticky, args.tier),
+                };
                 let all = seqs(nmax);
                 for variant in 0..fam.variants {
                     for s in &all {
                         let splits = if (fam.prev)(variant) { s.len() } else { 0 };
                         for cut in 0..=splits {
                             let inp = In { variant, prev: s[..cut].to_vec(), items: s[cut..].to_vec() };
-                            leaves_by_fam[fi] += explore(&mut rep, &mut t, fi, &inp, sticky, k, k, usize::MAX);
+                            leaves_by_fam[fi][sticky as usize] += explore(&mut rep, &mut t, fi, &inp, sticky, k, k_inner, usize::MAX);
                         }
                     }
                 }
@@ -457,7 +475,8 @@ fn main() {
     }
 
     // (2) random long runs: length <= 30, Pending density 0-60 % per run, sticky/fickle per downstream
-    let n_random = args.budget(20_000, 1_000_000, 40);
+    let tuning = forced.is_some() || only.is_some();
+    let n_random = if tuning { 0 } else { args.budget(20_000, 1_000_000, 40) };
     let mut random_nontrivial = 0u64;
     for r in 0..n_random {
         if miri && !args.in_shard(r) {
@@ -492,7 +511,8 @@ fn main() {
     for (fi, fam) in FAMS.iter().enumerate() {
         rep.count_n(&format!("runs.{}", fam.name), t.runs[fi]);
         rep.count_n(&format!("nontrivial.{}", fam.name), t.nontrivial[fi]);
-        rep.count_n(&format!("exhaustive_leaves.{}", fam.name), leaves_by_fam[fi]);
+        rep.count_n(&format!("exhaustive_leaves.{}.sticky", fam.name), leaves_by_fam[fi][1]);
+        rep.count_n(&format!("exhaustive_leaves.{}.fickle", fam.name), leaves_by_fam[fi][0]);
     }
     rep.count_n("repoll.poll_ready_on_downstream_already_Done(not a violation)", t.repoll_ready_after_done);
     rep.count_n("repoll.poll_finalize_on_downstream_already_Done(not a violation)", t.repoll_finalize_after_done);
@@ -505,7 +525,9 @@ fn main() {
     rep.count_n("random_runs", n_random as u64);
     rep.count_n("random_runs_nontrivial", random_nontrivial);
 
-    if !miri {
+    if tuning {
+        rep.require(false, "developer options --bounds/--only in use: partial run");
+    } else if !miri {
         for (fi, fam) in FAMS.iter().enumerate() {
             rep.require(t.runs[fi] > 0, &format!("family {} never ran", fam.name));
             if fam.nd > 0 {
